@@ -46,6 +46,15 @@ Theorem c16_random_agent_orders : forall e c a p n slot e' c' slot',
   random_slot e c a p n slot = Ok (e', c', slot') -> adds_only (random_order p n) a e e'.
 Proof. exact random_slot_orders. Qed.
 
+(** Cancellations: the instructions an agent's cancel pass queues are cancellations
+    of ids taken from the agent's own list of live orders, each Active at the
+    moment the agent looks; the books are not touched. *)
+Theorem c16_cancels_own_active_orders : forall e c a orders pc e1 c1 keep,
+  cancel_live_orders e c a orders pc = Ok (e1, c1, keep) ->
+  exists drop, en_queue e1 = en_queue e ++ map (MCancel a) drop /\ en_market e1 = en_market e /\
+    (forall id, In id keep \/ In id drop -> In id orders /\ order_status e a id = Ok SActive).
+Proof. exact cancel_live_orders_spec. Qed.
+
 Check c16_probability_one_always.
 Check c16_noise_agent_orders.
 
@@ -64,3 +73,4 @@ Print Assumptions c16_helper_prices_on_grid.
 Print Assumptions c16_noise_agent_orders.
 Print Assumptions c16_momentum_agent_orders.
 Print Assumptions c16_random_agent_orders.
+Print Assumptions c16_cancels_own_active_orders.
